@@ -763,6 +763,16 @@ pub mod verif_hooks {
         }
     }
 
+    /// Buffers as earlier computations may have left them: arbitrary stale content.
+    pub fn bufs_from_parts(path: Vec<Pos>, lengths: Vec<f64>, vertices: Vec<Pos>) -> CurveBuffers {
+        CurveBuffers {
+            path,
+            lengths,
+            vertices,
+            ..CurveBuffers::default()
+        }
+    }
+
     pub fn bufs_path(bufs: &CurveBuffers) -> &[Pos] {
         &bufs.path
     }
